@@ -2,7 +2,7 @@
    Statements only (unit side; the dispatcher's broadcast to every registered unit is part of the
    dispatcher model and the end-to-end checks). *)
 From NextestModel Require Import Base.Str Model.Clocks Model.UnitTimers Model.AbsTimers
-  Proofs.Timers Proofs.UnitProps.
+  Proofs.Timers Proofs.UnitProps Proofs.UnitLive.
 Open Scope N_scope.
 
 (* A shutdown request reaching a running unit whose child has not been reaped sends exactly one
@@ -48,6 +48,17 @@ Theorem C11_grace_kill :
              (x = TTimeout -> timed_out s' = true).
 Proof. exact grace_expiry. Qed.
 Print Assumptions C11_grace_kill.
+
+(* Nextest exits on its own once every unit's process group is dead: from every state a unit can
+   reach -- by any event sequence whatsoever, under any pause table, with any clocks paused -- the
+   exit of its (killed) child followed by the leak timeout bring it to its final state in at most
+   four events, none of them a request from the dispatcher. No reachable state is a dead end. *)
+Theorem C11_unit_can_always_finish :
+  forall tbl cfg es r,
+    urun tbl cfg (uinit cfg) es = Ok r ->
+    exists r', urun tbl cfg (fst r) (finishing (fst r)) = Ok r' /\ ph (fst r') = PDone /\ snd r' = [].
+Proof. exact reachable_can_finish. Qed.
+Print Assumptions C11_unit_can_always_finish.
 
 Example C11_nonvacuous :
   let cfg := {| period := 50; terminate_after := None; grace := 7; leak_timeout := 1 |} in
